@@ -1,5 +1,5 @@
 (* C05 - parsing is a pure function of the command line, the format and the mode. *)
-From Clikit Require Import Base.Prelude Base.Res Model.Format Model.Parser Model.ParserState Proofs.ParserLemmas
+From Clikit Require Import Base.Prelude Base.Res Model.Format Model.Parser Proofs.ParserLemmas
                            Proofs.ParserStateLemmas.
 
 (* WHAT IS PROVED ABOUT THE CODE.  [parse_on st0] (Model/Parser.v) is DefaultArgsParser.parse on a parser object whose
@@ -42,3 +42,8 @@ Theorem parse_independent_of_object_state_iff_both_maps_reset : forall r,
   (forall st0 f len toks, snd (parse_obj r st0 f len toks) = parse f len toks) <-> r = RESET_BOTH.
 Proof. exact parse_obj_independent_iff_lemma. Qed.
 Print Assumptions parse_independent_of_object_state_iff_both_maps_reset.
+
+(* The entry the correspondence run uses (run_C05) asked for "both maps reset" is the entry of the code as it is. *)
+Theorem run_C05_both : forall fmts reqs extra, run_C05 (L [fmts; reqs; extra; A 0%Z]) = run_C05_asis (L [fmts; reqs; extra]).
+Proof. exact run_C05_both_lemma. Qed.
+Print Assumptions run_C05_both.
